@@ -452,6 +452,65 @@ fn one_impl(ctx: &Ctx, im: &ImplT, pre: &str, out: &mut Out, tags: &str) {
 }
 
 // ---------------------------------------------------------------------------------------------
+// programs with SEVERAL impls: the `orphan_check` query (the loop over `local_impl_ids` in
+// chalk-integration/src/query.rs, as `checked_program` runs it) must accept exactly when every
+// local impl passes `perform_orphan_check` on its own (each of those verdicts is tied to the model
+// and to the property's sentence by the one-impl programs above)
+// ---------------------------------------------------------------------------------------------
+
+fn multi_program(ctx: &Ctx, ims: &[ImplT], pre: &str, out: &mut Out, tags: &str) {
+    if !my_turn(ctx) {
+        return;
+    }
+    let text = format!("{}{}", pre, ims.iter().map(impl_text).collect::<Vec<_>>().join(" "));
+    let (db, program) = match lower_program(&text, SolverChoice::slg_default()) {
+        Ok(x) => x,
+        Err(_) => {
+            out.count("multi_program_rejected");
+            return;
+        }
+    };
+    let local_impls: Vec<ImplId<ChalkIr>> = program.impl_data.iter().filter(|(_, d)| d.impl_type == ImplType::Local).map(|(id, _)| *id).collect();
+    out.count("multi_programs");
+    out.count(&format!("multi_program_impls_{}", local_impls.len()));
+    out.evaluations_extra += 1;
+    let query = verdict(&catch(AssertUnwindSafe(|| db.orphan_check().map_err(|e| format!("{}", e)))));
+    let per: Vec<String> = local_impls
+        .iter()
+        .map(|impl_id| {
+            verdict(&catch(AssertUnwindSafe(|| {
+                tls::set_current_program(&program, || {
+                    let mut solver = SolverChoice::slg_default().into_solver();
+                    let dbr: &dyn RustIrDatabase<ChalkIr> = &db;
+                    perform_orphan_check::<ChalkIr>(dbr, &mut *solver, *impl_id).map_err(|e| format!("{}", e))
+                })
+            })))
+        })
+        .collect();
+    if per.iter().any(|v| v != "yes" && v != "no") {
+        out.count("multi_program_per_impl_error");
+        return;
+    }
+    let expected = if per.iter().all(|v| v == "yes") { "yes" } else { "no" };
+    out.count(&format!("multi_program_{}", expected));
+    // position of the first violating impl among local-trait impls (shape statistics)
+    if expected == "no" {
+        let spec_ok: Vec<bool> = ims.iter().map(spec_orphan_ok).collect();
+        let first_bad = spec_ok.iter().position(|b| !b).unwrap_or(0);
+        if ims[..first_bad].iter().any(|im| !im.upstream_trait) {
+            out.count("multi_program_violation_after_local_trait_impl");
+        }
+    }
+    if query != expected {
+        out.fail(
+            &format!("the orphan_check query answers `{}` for the program, but checking its {} local impls one by one gives {:?}", query, per.len(), per),
+            &text,
+            if query == "yes" { "orphan_query_accepts_program_with_forbidden_impl" } else { "orphan_query_rejects_program_of_allowed_impls" },
+        );
+    }
+}
+
+// ---------------------------------------------------------------------------------------------
 // auxiliary domain goals
 // ---------------------------------------------------------------------------------------------
 
@@ -721,6 +780,24 @@ pub fn run(ctx: &Ctx, out: &mut Out) {
         }
     } else {
         out.notes.push("prelude did not lower".into());
+    }
+
+    // ---- programs with 2-4 impls (local and upstream traits mixed, random order)
+    let nm = ctx.budget(150, 6000);
+    for i in 0..nm {
+        let mut rng = ctx.rng(3, i as u64);
+        let k = 2 + rng.usize_below(3);
+        let ims: Vec<ImplT> = (0..k)
+            .map(|_| {
+                let mut im = random_impl(&mut rng);
+                // local-trait impls are frequent here (1/8 in `random_impl`): their position matters
+                if rng.chance(1, 3) {
+                    im.upstream_trait = false;
+                }
+                im
+            })
+            .collect();
+        multi_program(ctx, &ims, &pre, out, "multi");
     }
 
     // ---- random impls over the whole constructor pool (F2, LF1, U2, 3-tuples, six scalars, two parameters)
